@@ -621,3 +621,154 @@ Proof.
     rewrite (smatch_list_atom p seen e); auto.
 Qed.
 End MatchProofs.
+
+(* ---- the statements used by Props/C17.v *)
+Lemma match_sound_complete : forall lits ell, is_symbol ell = true ->
+  forall p u env, S_match lits ell p u = true ->
+  pattern_match lits ell (pm_fuel p) p u env =
+  Ok (option_map (fun se => env ++ flat se) (smatch lits ell p u)).
+Proof.
+  intros lits ell Hell p u env H. unfold S_match in H.
+  apply andb_prop in H. destruct H as [H Hu]. apply andb_prop in H. destruct H as [Hp Hl].
+  unfold pm_fuel.
+  apply (pattern_match_spec lits ell Hell (S (car_depth p)) p false); auto.
+Qed.
+
+Lemma first_matching_rule : forall tr u extra, supported_tr tr u = true ->
+  transform_apply_fuel extra tr u =
+  match spec_select (tr_literals tr) (tr_ellipsis tr) (tr_rules tr) u with
+  | None => Err E_OTHER
+  | Some (pat, tmpl, se) =>
+      match expand (tr_ellipsis tr) pat (flat se) (expand_fuel tmpl (flat se) + extra) tmpl (env_new pat) with
+      | Ok (Some c, _) => Ok c
+      | Ok (None, _) => Err E_OTHER
+      | Err e => Err e
+      | Panic s => Panic s
+      | NoFuel => NoFuel
+      end
+  end.
+Proof.
+  intros tr u extra H. unfold supported_tr in H. apply andb_prop in H. destruct H as [Hell H].
+  unfold transform_apply_fuel.
+  generalize dependent (tr_rules tr). intros rules.
+  induction rules as [|[pat tmpl] rest IH]; intros H.
+  - simpl. destruct (negb (is_pair u)); reflexivity.
+  - simpl in H. apply andb_prop in H. destruct H as [Hr Hrest].
+    unfold rule_supported in Hr. simpl in Hr.
+    destruct (p_expr pat) as [| | | |pk pd| | | | | | | |] eqn:Ep; try discriminate.
+    destruct u as [| | | |uk ud| | | | | | | |]; try discriminate.
+    apply andb_prop in Hr. destruct Hr as [Hr _]. apply andb_prop in Hr. destruct Hr as [Hm _].
+    specialize (IH Hrest). simpl in IH.
+    cbn [is_pair negb transform_rules spec_select fst snd]. rewrite Ep. cbn [cdr_ bind].
+    rewrite (match_sound_complete _ _ Hell pd ud [] Hm).
+    destruct (smatch (tr_literals tr) (tr_ellipsis tr) pd ud) as [se|]; cbn [option_map bind app].
+    + destruct (expand _ _ _ _ _ _) as [[[c|] its]| | |]; reflexivity.
+    + exact IH.
+Qed.
+
+(* ======================================================================
+   Part 3: refutations outside the fragment — concrete witnesses, by computation
+   ====================================================================== *)
+From MW Require Import Model.Lex Model.Parse.
+
+(* the property for one (definition, use): see Props/C17.v *)
+Definition sound_on (d u : cell) : Prop :=
+  match transform_try_new d with
+  | Ok tr =>
+      match transform_apply tr u with
+      | Ok c => spec_of_transform tr u = SpecOk c \/ spec_of_transform tr u = SpecExcluded
+      | Err _ => True
+      | Panic _ | NoFuel => False
+      end
+  | Err _ => True
+  | Panic _ | NoFuel => False
+  end.
+
+(* witnesses are written in marwood's own syntax and read by the model's reader *)
+Definition rd (s : String.string) : cell :=
+  match parse_text (S_ s) with Ok (c, _) => c | _ => CNil end.
+Definition defn (rules : String.string) : cell :=
+  rd (String.append "(define-syntax m (syntax-rules " (String.append rules "))")).
+
+Definition refuted (d u : cell) : Prop := supported d u = false /\ ~ sound_on d u.
+
+Ltac refute := split; [vm_compute; reflexivity
+                      | unfold not, sound_on; vm_compute;
+                        first [ intros [H|H]; discriminate H | intros H; exact H ] ].
+
+(* nested ellipsis: interleaved wrong output *)
+Lemma refuted_nested_ellipsis :
+  refuted (defn "() ((_ (a b ...) ...) '((a b ...) ...))") (rd "(m (1 2 3) (4 5))").
+Proof. refute. Qed.
+
+(* a variable used twice under one ellipsis: ((1 2)) instead of ((1 1) (2 2)) *)
+Lemma refuted_var_twice :
+  refuted (defn "() ((_ a ...) '((a a) ...))") (rd "(m 1 2)").
+Proof. refute. Qed.
+
+(* ... and, when one of the uses is under a nested ellipsis, expansion never terminates
+   (no fuel suffices: the cursor of [a] is reset by the inner loop on every round) *)
+Lemma refuted_var_twice_hang :
+  refuted (defn "() ((_ a ...) '((a (a ...)) ...))") (rd "(m 1 2)").
+Proof. refute. Qed.
+
+(* pattern variables in vectors are not instantiated *)
+Lemma refuted_vector_template :
+  refuted (defn "() ((_ a) '#(a))") (rd "(m 1)").
+Proof. refute. Qed.
+
+(* a dotted template comes out as a proper list *)
+Lemma refuted_dotted_template :
+  refuted (defn "() ((_ a) '(a . 5))") (rd "(m 1)").
+Proof. refute. Qed.
+
+(* an ellipsis variable used without ellipsis yields its first item *)
+Lemma refuted_ellipsis_var_without_ellipsis :
+  refuted (defn "() ((_ a ...) '(a))") (rd "(m 1 2)").
+Proof. refute. Qed.
+
+(* after a multi-variable ellipsis sub-template the cursor of every variable but the
+   first is left at the end: its next use expands to nothing *)
+Lemma refuted_stale_cursor :
+  refuted (defn "() ((_ (x y) ...) '(((x y) ...) (y ...)))") (rd "(m (1 a) (2 b))").
+Proof. refute. Qed.
+
+(* silent fall-through to a later rule (first matching rule violated) *)
+Lemma refuted_dotted_pattern_fallthrough :
+  refuted (defn "() ((_ a . b) '(a b)) ((_ c ...) 'second)") (rd "(m 1 2 3)").
+Proof. refute. Qed.
+
+Lemma refuted_dotted_pattern_binding :
+  refuted (defn "() ((_ . a) 'a)") (rd "(m 1)").
+Proof. refute. Qed.
+
+Lemma refuted_ellipsis_tail_zero_items :
+  refuted (defn "() ((_ a ... b) '(a ... b)) ((_ c) 'second)") (rd "(m 1)").
+Proof. refute. Qed.
+
+Lemma refuted_vector_pattern_literal :
+  refuted (defn "() ((_ #(a b)) '(a b)) ((_ c) 'second)") (rd "(m #(1 2))").
+Proof. refute. Qed.
+
+(* F15 (fixed): the template (a ...) over a depth-0 variable is rejected when defined;
+   on the pinned tree the definition was accepted and (m 1) never returned *)
+Lemma f15_rejected : exists e, transform_try_new (defn "() ((_ a) '(a ...))") = Err e.
+Proof. eexists. vm_compute. reflexivity. Qed.
+
+(* non-vacuity: supported, matched by the second rule with a non-empty tail after the
+   ellipsis, and the outcome is the R7RS expansion *)
+Lemma supported_example :
+  let d := defn "(else) ((_ a) '(one a)) ((_ a b ... else (c d)) '(d (a) (b ...) c b ...)) ((_ x ...) '(x ...))" in
+  let u := rd "(m 1 2 3 else (4 5))" in
+  supported d u = true /\ sound_on d u /\
+  (exists tr, transform_try_new d = Ok tr /\ transform_apply tr u = Ok (rd "'(5 (1) (2 3) 4 2 3)")).
+Proof.
+  cbv zeta. split; [vm_compute; reflexivity|]. split.
+  - unfold sound_on. vm_compute. left. reflexivity.
+  - eexists. split; vm_compute; reflexivity.
+Qed.
+
+Lemma s_match_example :
+  S_match [CSym (S_ "else")] DOTS (rd "(a b ... else (c d))") (rd "(1 2 3 else (4 5))") = true /\
+  S_match [] DOTS (rd "(a ... b)") (rd "(1)") = false.
+Proof. split; vm_compute; reflexivity. Qed.
